@@ -14,9 +14,12 @@
      The proof goes through the reference over the wired tree (C16_query_eq_tree_reference,
      C16_values_directly_eq_nodes_then_values, C16_json_reference_eq_tree_reference).
    Scope of the hypothesis [simple_path]: no component uses the descendant separator '>'
-   (an executable predicate on the path).  For paths WITH a descendant step the statement
-   "query = search of all composite nodes" is not proved; what holds for them: what one
-   step selects (the C16_step theorems), and fuel monotonicity for every path (C16_fuel_monotone).
+   (an executable predicate on the path).  For paths WITH descendant steps (every separator
+   one of / . >: executable [wf_path]) the same equality is proved against the nodes-first
+   form of the reference, a descendant step being the structural search of all composite
+   nodes of the rendering, under the executable hypothesis that the rendering is saturated:
+   C16_query_eq_reference_descendant (end of this file).  Fuel monotonicity holds for every
+   path (C16_fuel_monotone).
    Also proved: the subset selector; document order of every selection; only value nodes
    yield values. *)
 From PBK Require Import Base Descr Walk Wire PySlice PathParser Query QueryProofs QuerySpec.
